@@ -128,6 +128,24 @@ def TreeState.flushSealed (t : TreeState K) (wm : Nat) (cuts : List (Nat × Nat)
       | some tables =>
         some (t.install { sv with version := sv.version.withNewL0Run tables, sealed := [] } wm)
 
+/-- `register_tables` of a flush that ran CONCURRENTLY with other operations: the flusher had snapshotted the sealed
+    memtables `ids` (always the oldest ones), wrote their merged stream to tables without holding a lock, and now
+    commits on the CURRENT state. If one of the snapshotted memtables is gone (fjall#287 race) the result is discarded.
+    Memtables sealed after the snapshot stay sealed. -/
+def TreeState.flushCommit (t : TreeState K) (ids : List Nat) (wm : Nat) (cuts : List (Nat × Nat)) : Option (TreeState K) :=
+  match t.latest? with
+  | none => none
+  | some sv =>
+    if ids.isEmpty then none
+    else if !(ids.all (fun i => sv.sealed.contains i)) then some t
+    else
+      let stream := (cstream wm false noFilter (mergeAll (ids.map t.mem))).1
+      match cutTables cuts (stream.map (separate t.blobTh)) 0 with
+      | none => none
+      | some tables =>
+        some (t.install { sv with version := sv.version.withNewL0Run tables,
+                                  sealed := sv.sealed.filter (fun i => !ids.contains i) } wm)
+
 /-- effective entries of the tables with the given ids, merged as `create_compaction_stream` does -/
 def mergeInputs (v : Version K) (ids : List Nat) : List (Entry K) :=
   mergeAll (v.runs.map (fun r => (r.filter (fun t => ids.contains t.id)).flatMap (·.entries)))
@@ -182,6 +200,7 @@ inductive Op (K : Type) where
   | write (es : List (Entry K))
   | rotate (newMem : Nat)
   | flush (wm : Nat) (newMem : Nat) (cuts : List (Nat × Nat))
+  | flushCommit (ids : List Nat) (wm : Nat) (cuts : List (Nat × Nat))
   | merge (ids : List Nat) (dest : Nat) (wm : Nat) (f : Entry K → Verdict) (cuts : List (Nat × Nat))
   | move (ids : List Nat) (dest : Nat) (wm : Nat)
   | drop (ids : List Nat) (wm : Nat)
@@ -192,6 +211,7 @@ inductive Op (K : Type) where
 /-- the GC watermark an operation passes to `maintenance` -/
 def Op.watermark : Op K → Nat
   | .flush wm _ _ => wm
+  | .flushCommit _ wm _ => wm
   | .merge _ _ wm _ _ => wm
   | .move _ _ wm => wm
   | .drop _ wm => wm
@@ -205,6 +225,7 @@ def TreeState.applyOp (t : TreeState K) : Op K → Option (TreeState K)
   | .write es => t.write es
   | .rotate m => if t.freshMem m then some (t.rotate m) else none
   | .flush wm m cuts => if t.freshMem m then (t.rotate m).flushSealed wm cuts else none
+  | .flushCommit ids wm cuts => t.flushCommit ids wm cuts
   | .merge ids dest wm f cuts => t.mergeCommit ids dest wm f cuts
   | .move ids dest wm => t.moveCommit ids dest wm
   | .drop ids wm => t.dropCommit ids wm
